@@ -85,6 +85,7 @@ const (
 	compoundHeaderOverhead = 2   // Assumed header overhead
 	compoundOverhead       = 2   // Assumed overhead per entry in compoundHeader
 	userMsgOverhead        = 1
+	crcHeaderOverhead      = 5                     // hasCrcMsg byte plus CRC32, prepended for peers that understand protocol version 5
 	blockingWarning        = 10 * time.Millisecond // Warn if a UDP packet takes this long to process
 	maxPushStateBytes      = 20 * 1024 * 1024
 	maxPushStateNodes      = 1024 * 1024      // Each requires conservatively  ~20 bytes when encoded
@@ -800,8 +801,10 @@ func (m *Memberlist) encodeAndSendMsg(a Address, msgType messageType, msg any) e
 // sendMsg is used to send a message via packet to another host. It will
 // opportunistically create a compoundMsg and piggy back other broadcasts.
 func (m *Memberlist) sendMsg(a Address, msg []byte) error {
-	// Check if we can piggy back any messages
-	bytesAvail := m.config.UDPBufferSize - len(msg) - compoundHeaderOverhead - labelOverhead(m.config.Label)
+	// Check if we can piggy back any messages. The message itself takes a
+	// length slot in the compound message like every piggybacked one, and the
+	// packet may get a checksum header prepended.
+	bytesAvail := m.config.UDPBufferSize - len(msg) - compoundOverhead - compoundHeaderOverhead - crcHeaderOverhead - labelOverhead(m.config.Label)
 	if m.config.EncryptionEnabled() && m.config.GossipVerifyOutgoing {
 		bytesAvail -= encryptOverhead(m.encryptionVersion())
 	}
